@@ -18,10 +18,13 @@ var atomPool = []string{"a", "foo", "b2", "x.y", ".z", "a.b.c", "key:", "#s", "?
 	"-Inf", "+Inf", "'a'", "'\\n'", "'é'", "'\\''", "\"str\"", "\"a\\\"b\\n\"", "\"\"", "\"((\"", "`raw`", "`r\nw`", "``", "+", "-", "*", "/", "<=", ">=", "==",
 	"!=", ":=", "=", "&&", "||", "->", "<-", "++", "**", "!", "<", ">", "&", ";", ",", "// c\n", "/* b */", "/* m\nl */", "/***/",
 	"9223372036854775807", "-9223372036854775808", "9223372036854775808", "18446744073709551615ULL", "18446744073709551616ULL",
-	"0x7fffffffffffffff", "0x8000000000000000", "1e400", "1_.5", "1e5_0", "4.9e-324", "0.1", "123456789.123456789e-5", "a:", "for", "x:=", "a[1:2]", "a:b", "1:2", "-1:", "é", "日本", "a-b", "a+b", "a*b", "a/b", "a<b", "1-1", "1e", "1e+", "e-1", "1e-x"}
+	"0x7fffffffffffffff", "0x8000000000000000", "1e400", "1_.5", "1e5_0", "4.9e-324", "0.1", "123456789.123456789e-5", "a:", "for", "x:=", "a[1:2]", "a:b", "1:2", "-1:", "é", "日本", "a-b", "a+b", "a*b", "a/b", "a<b", "1-1", "1e", "1e+", "e-1", "1e-x",
+	// the escapes of strconv.Quote/QuoteRune (repo fix C12-02: two more lexer states)
+	"\"a\\x41\\u00e9\\U0001F600\\v\\f\\b\"", "'\\x41'", "'\\u00e9'", "'\\U0001F600'", "'\\v'"}
 
 var malformedPool = []string{"(", ")", "[", "]", "{", "}", "\"", "'", "`", "/*", "*/", "//", "%", "^", "~", "~@", "\\", "a\"", "a'", "a`", "a%", "a^", "a~",
-	"\"\\q\"", "'ab'", "''", "'\\q'", "1x", "0x", "0b2", "@", "|", "#", "?", "a#b", "..", ".a.", "~(", "~\"", "1ULL2", "{a:", "{\"k\":", "{\"k\"", "{`k`:", "{/*c*/a:", "{//c\na:", "{a: for", "**/", ":", "::", ":=:"}
+	"\"\\q\"", "'ab'", "''", "'\\q'", "1x", "0x", "0b2", "@", "|", "#", "?", "a#b", "..", ".a.", "~(", "~\"", "1ULL2", "{a:", "{\"k\":", "{\"k\"", "{`k`:", "{/*c*/a:", "{//c\na:", "{a: for", "**/", ":", "::", ":=:",
+	"\"\\x4\"", "\"\\ud800\"", "'\\xg1'", "\"\\U0011"}
 
 type pgen struct {
 	g *Gen
